@@ -153,7 +153,9 @@ def run(chk):
         conv_auth = conversions(ua, ft["args"][2])
         rp = flow.simplify_term(Ta.operand(ft["args"][2], fb, "t"))
         ids = flow.simplify_term(Ta.operand(ft["args"][1], fb, "t"))
-        ok = conv_reg is not None and conv_auth == conv_reg and len(conv_reg) >= 2 and rp == ("field", ("upvar", 1), "application")
+        bytesish = lambda ty: "bytes" if ty in ("Vec", "[u8]") or str(ty).startswith("[u8") or ty == "array" else ty
+        nc = lambda ch: [(bytesish(a), bytesish(b)) for a, b in (ch or []) if bytesish(a) != bytesish(b)]
+        ok = conv_reg is not None and nc(conv_auth) == nc(conv_reg) and len(nc(conv_reg)) >= 2 and (rp == ("field", ("upvar", 1), "application") or flow.term_contains(rp, lambda x: x == ("field", ("upvar", 1), "application")))
         chk.ob("R2 stored credential", "R2|rp-id-conversion-agrees", ok, where(ua, fb), "stored rp_id: application via %s ; lookup rp_id: application via %s" % (conv_reg, conv_auth))
         okid = has(ids, lambda x: isinstance(x, tuple) and len(x) == 4 and x[0] == "agg" and x[1].endswith("PublicKeyCredentialDescriptor") and dict(x[3]).get("id") == ("field", ("upvar", 1), "key_handle"))
         chk.ob("R2 stored credential", "R2|authenticate|id-is-key-handle", okid, where(ua, fb), "lookup ids = %s" % flow.term_str(ids)[:160])
